@@ -1274,7 +1274,8 @@ func (app *App) performSwitchover(clusterState map[string]*nodestate.NodeState, 
 	// set read only everywhere (all HA-nodes) and stop replication
 	app.logger.Info().Msg("switchover: phase 1: enter read only")
 	errs := util.RunParallel(func(host string) error {
-		if !clusterState[host].PingOk {
+		// the published list may name a host that is no longer registered: there is no state for it
+		if state := clusterState[host]; state == nil || !state.PingOk {
 			return fmt.Errorf("switchover: failed to ping host %s", host)
 		}
 		node := app.cluster.Get(host)
